@@ -516,8 +516,20 @@ fn c18_gen(seed: u64, k: u64) -> C18Case {
     spec.sched.strategy = Strategy::Uniform;
     let bad_idx = |rng: &mut rand_chacha::ChaCha8Rng| [n, n + 1, usize::MAX, usize::MAX / 2][rng.random_range(0..4)];
     let p = rng.random_range(0..n);
-    let kinds = 16;
+    let kinds = 17;
     let (what, must_reject, expect): (String, Vec<usize>, &str) = match k % kinds {
+        16 => {
+            // a circuit to which nobody contributes an input bit (all input counts zero), with or
+            // without gates that read registers nobody wrote: rejected by the circuit's own validation
+            let gates = rng.random_bool(0.5);
+            spec.circ.inputs = vec![0; n];
+            spec.circ.insts = if gates { vec!["x0,1>2".to_string()] } else { vec![] };
+            spec.circ.outs = vec![if gates { 2 } else { 0 }];
+            spec.circ.max_reg = 3;
+            spec.circ.and_ops = 0;
+            spec.inputs = vec![String::new(); n];
+            ("counter-mismatch: circuit without any input".into(), vec![], "no-panic")
+        }
         0 => {
             let x = bad_idx(&mut rng);
             // the input vector that goes with a non-existent index: the party's own one, or none at all
@@ -822,7 +834,9 @@ fn c19_gen_hist(seed: u64, k: u64) -> C19Hist {
     // one history in twenty works at the engine's scale: chunks of hundreds to thousands of
     // elements of up to a few KiB each (a single encoded chunk of up to several MiB)
     let big = k % 20 == 19;
-    let chunk = if big { [256usize, 1000, 2500][rng.random_range(0..3)] } else { [1usize, 2, 3, 5, 8][rng.random_range(0..5)] };
+    // ... and one in three hundred appends a single chunk of 40000 tiny elements
+    let huge = k % 300 == 299;
+    let chunk = if huge { 40_000 } else if big { [256usize, 1000, 2500][rng.random_range(0..3)] } else { [1usize, 2, 3, 5, 8][rng.random_range(0..5)] };
     let len = if big { rng.random_range(1..=5) } else { rng.random_range(1..=12) };
     let regular = rng.random_bool(0.5);
     let mut ops = vec![];
@@ -861,7 +875,7 @@ fn c19_gen_hist(seed: u64, k: u64) -> C19Hist {
     C19Hist {
         chunk,
         ops,
-        elem_kind: if big { [0u8, 3, 40, 120][rng.random_range(0..4)] } else { rng.random_range(0..4) },
+        elem_kind: if huge { 0 } else if big { [0u8, 3, 40, 120][rng.random_range(0..4)] } else { rng.random_range(0..4) },
         seed: entropy::mix(seed, 0xc19f, k),
     }
 }
@@ -930,7 +944,7 @@ impl Check for C19 {
         "exploration"
     }
     fn rule(&self) -> String {
-        "two kinds of evaluation: (a) storage model: a seeded operation history of length <= 12 over {append(size 1..3*chunk; chunk in {1,2,3,5,8}, and in one history of twenty chunk in {256,1000,2500} with elements of up to 3.8 KiB, i.e. single encoded chunks of up to 9 MiB), iterate fully, iterate k items then drop, chunks fully, chunks k then drop, re-append} applied in lock-step to the real temp-file buffer, the real in-memory buffer and a Vec<Vec<_>> reference model with the engine's share-shaped element type: same items, same order, same chunk boundaries whenever all appends but the last had the requested size, directory empty during and after; (b) engine: one simulated mpc execution per tmp_dir assignment of an n<=3 configuration, all replaying the recorded schedule of the all-in-memory run with the same coins: transcripts must be byte-identical and results equal; circuits above 1000 AND gates (several chunks) in a fixed share; distinct = history / (configuration, assignment) hash".into()
+        "two kinds of evaluation: (a) storage model: a seeded operation history of length <= 12 over {append(size 1..3*chunk; chunk in {1,2,3,5,8}, and in one history of twenty chunk in {256,1000,2500} with elements of up to 3.8 KiB, i.e. single encoded chunks of up to 9 MiB, and in one of three hundred a single chunk of 40000 small elements), iterate fully, iterate k items then drop, chunks fully, chunks k then drop, re-append} applied in lock-step to the real temp-file buffer, the real in-memory buffer and a Vec<Vec<_>> reference model with the engine's share-shaped element type: same items, same order, same chunk boundaries whenever all appends but the last had the requested size, directory empty during and after; (b) engine: one simulated mpc execution per tmp_dir assignment of an n<=3 configuration, all replaying the recorded schedule of the all-in-memory run with the same coins: transcripts must be byte-identical and results equal; circuits above 1000 AND gates (several chunks) in a fixed share; distinct = history / (configuration, assignment) hash".into()
     }
     fn assumptions(&self) -> Vec<String> {
         vec!["I/O faults (ENOSPC, short writes) are outside the property's statement and are not injected; the temp files are real files in a per-run directory".into()]
